@@ -394,6 +394,7 @@ class Inst:
         self.start_running = op["start_running"]
         self.req_after_end = None
         self.resolve_pause = False
+        self.end_ambiguous = False
         self.pause_unknown = False
         self.must_start_t = None
 
@@ -619,6 +620,21 @@ def execute(ctx, plan):     # noqa: C901  (one scenario, kept in one place on pu
                 return
         # replacement through the show_player with sync_ms: the old show stops when the new one starts
         if x == "stopped" and inst.replaced_by is not None and inst.live() and inst.replaced_by.status == "sync" \
+                and completion_due(inst, t) and start_plausible(inst.replaced_by, t):
+            # both the show's own completion and its synchronised replacement are due at this instant (exact tie, or
+            # both overdue after a stall): the loop may run either first; if the replacement wins there is no
+            # `completed`.  Accept both outcomes (the statement does not order them).
+            new = inst.replaced_by
+            close_open(inst)
+            inst.last_op = "replaced_or_completed"
+            inst.end_ambiguous = True
+            end(inst, "stop", t)
+            inst.open = {"t": t, "need": Counter(), "opt": Counter({"completed": 1})}
+            inst.replaced_by = None
+            new.pending_old = None
+            ctx.probe("replace_vs_completion_tie")
+            return
+        if x == "stopped" and inst.replaced_by is not None and inst.live() and inst.replaced_by.status == "sync" \
                 and not completion_due(inst, t):
             new = inst.replaced_by
             ok = match_time(new, new.cands, t, "replace")
@@ -700,6 +716,17 @@ def execute(ctx, plan):     # noqa: C901  (one scenario, kept in one place on pu
             if state.get("next") is not None:
                 state["next"].cancel()
             done[0] = True
+
+    def start_plausible(new, t):
+        """Could the sync-waiting show `new` start at t (on time, or late at a stall landing instant)?"""
+        ft = Fraction(t)
+        for c in new.cands:
+            if c is None:
+                continue
+            d = ft - c
+            if d >= -2e-9 and (d <= 2e-9 or landing(t)):
+                return True
+        return False
 
     def completion_due(inst, t):
         """Is the next timed tick of inst its completion, nominally due by t?"""
@@ -1304,6 +1331,8 @@ def execute(ctx, plan):     # noqa: C901  (one scenario, kept in one place on pu
                               "instance %s: stopped posted %d times (ended by %s)"
                               % (inst.tag, inst.counts["stopped"], inst.end_how))
             exp_completed = 1 if inst.end_how == "complete" else 0
+            if inst.end_ambiguous:
+                exp_completed = inst.counts["completed"] if inst.counts["completed"] in (0, 1) else 0
             if inst.counts["completed"] != exp_completed:
                 ctx.violation("event_missing" if exp_completed else "effect_after_end", sig(inst, "completed"),
                               "instance %s: completed posted %d times, ended by %s"
